@@ -145,19 +145,26 @@ MutErr(st, id) == IF st.heap[id].iters >= 1000 THEN "frozen" ELSE "iter-mutation
 
 DictIdx(st, d, k) == IF \E i \in 1..Len(d.e) : VEq(st, d.e[i][1], k) THEN CHOOSE i \in 1..Len(d.e) : VEq(st, d.e[i][1], k) ELSE 0
 
-\* deep copy of a value for the effect log / final globals (identity dropped, cycles cut)
-RECURSIVE Deep(_, _, _)
-Deep(st, v, fuel) ==
+\* deep copy of a value for the effect log / final globals (identity dropped, cycles cut).
+\* A reference cycle is cut where the walk meets an object it is already inside (path = the heap objects being expanded),
+\* which is where the observation side cuts it too; the fuel only bounds deep acyclic nesting.  Cutting by fuel alone
+\* expands a list that holds k references to itself into k^fuel copies.
+RECURSIVE DeepOn(_, _, _, _)
+DeepOn(st, v, fuel, path) ==
   IF fuel = 0 THEN [t |-> "deep"]
-  ELSE CASE v.t = "tuple" -> [t |-> "tuple", e |-> [i \in 1..Len(v.e) |-> Deep(st, v.e[i], fuel - 1)]]
-         [] v.t = "ref" -> LET o == st.heap[v.id] IN
-              IF o.t = "list" THEN [t |-> "list", e |-> [i \in 1..Len(o.e) |-> Deep(st, o.e[i], fuel - 1)]]
-              ELSE IF o.t = "obj" THEN [t |-> "obj", e |-> [i \in 1..Len(o.e) |-> <<o.e[i][1], Deep(st, o.e[i][2], fuel - 1)>>]]
-              ELSE [t |-> "dict", e |-> [i \in 1..Len(o.e) |-> <<Deep(st, o.e[i][1], fuel - 1), Deep(st, o.e[i][2], fuel - 1)>>]]
+  ELSE CASE v.t = "tuple" -> [t |-> "tuple", e |-> [i \in 1..Len(v.e) |-> DeepOn(st, v.e[i], fuel - 1, path)]]
+         [] v.t = "ref" ->
+              IF v.id \in path THEN [t |-> "deep"]
+              ELSE LET o == st.heap[v.id]
+                       p == path \cup {v.id} IN
+              IF o.t = "list" THEN [t |-> "list", e |-> [i \in 1..Len(o.e) |-> DeepOn(st, o.e[i], fuel - 1, p)]]
+              ELSE IF o.t = "obj" THEN [t |-> "obj", e |-> [i \in 1..Len(o.e) |-> <<o.e[i][1], DeepOn(st, o.e[i][2], fuel - 1, p)>>]]
+              ELSE [t |-> "dict", e |-> [i \in 1..Len(o.e) |-> <<DeepOn(st, o.e[i][1], fuel - 1, p), DeepOn(st, o.e[i][2], fuel - 1, p)>>]]
          [] v.t = "range" -> [t |-> "range", len |-> Len(v.e)]
          [] v.t = "fn" -> [t |-> "fn", name |-> v.name]
          [] v.t = "bound" -> [t |-> "builtin", name |-> v.m]
          [] OTHER -> v
+Deep(st, v, fuel) == DeepOn(st, v, fuel, {})
 
 
 \* structural equality as `==` computes it, for the values whose equality is structural: "t", "f", or "u" when the
